@@ -52,6 +52,6 @@ $(eval $(call MULTI,seq_disp_clang,0 1 2 3 4 5 6 7 8 9 10 11 12 13 14,seq_disp,$
 $(eval $(call MULTI,seq_heter,0 1 2 3 4 5 6 7,seq_heter,$(CXX)))
 $(eval $(call MULTI,seq_remover,0 1 2 3 4 5,seq_remover,$(CXX)))
 $(eval $(call MULTI,seq_anydata,0 1 2 3 4,seq_anydata,$(CXX)))
-$(eval $(call MULTI,seq_filter,0 1 2 3 4 5 6 7,seq_filter,$(CXX)))
+$(eval $(call MULTI,seq_filter,0 1 2 3 4 5 6 7 8,seq_filter,$(CXX)))
 $(eval $(call MULTI,seq_heter_clang,0 1 2 3 4 5 6 7,seq_heter,$(CLANGXX)))
 $(eval $(call MULTI,seq_list_clang,0 1 2 3 4 5 6 7 8,seq_list,$(CLANGXX)))
